@@ -78,11 +78,16 @@ func (x *task) wait() {
 	enqueued := map[*task]unit{x: {}}
 	for i := 0; i < len(work); i++ {
 		u := work[i]
+		verifTraceLock()
 		if u.isTransitivelyDone() { // already transitively done
+			verifTraceWait(verifWaitSkip, x, u, nil)
 			work[i] = nil
 			continue
 		}
+		verifTraceWait(verifWaitCheck, x, u, nil)
 		<-u.done // wait for u to be marked done.
+		verifTraceLock()
+		n0 := len(work)
 
 		for v := range u.edges {
 			if _, ok := enqueued[v]; !ok {
@@ -90,14 +95,17 @@ func (x *task) wait() {
 				work = append(work, v)
 			}
 		}
+		verifTraceWait(verifWaitRecv, x, u, work[n0:])
 	}
 
 	// work is transitively closed over dependencies.
 	// u in work is done (or transitively done and skipped).
 	// u is transitively done.
+	verifTraceLock()
 	for _, u := range work {
 		if u != nil {
 			x.transitive.Store(true)
 		}
 	}
+	verifTraceWait(verifWaitEnd, x, nil, nil)
 }
